@@ -408,7 +408,7 @@ func c143(c *an.Ctx, p *an.Prog) {
 			for _, f := range []string{"R", "P"} {
 				var stored *an.Term
 				for _, e := range s.Events {
-					if e.Kind == "store" && e.Args[0].Op == "fieldaddr" && e.Args[0].Aux == f && e.Args[0].Args[0].K == extractOf(nw, 0).K {
+					if e.Kind == "store" && e.Args[0].Op == "fieldaddr" && e.Args[0].Aux == f && e.Args[0].Args[0].K == extractOf(nw, 0).K && !selfStore(e) {
 						stored = e.Args[1]
 					}
 				}
